@@ -286,12 +286,13 @@ def _check_values(ctx, fname, res, lmax, theta, phi):
             return True
         tol = max(tol, tol_low(low, lmax, (th, ph)))
         ctx.count("single-precision-angle-calls:" + fname)
+    sfx = "" if low is None else "-single-precision-input"  # separate clause names keep the float64 maxima readable
     if decided.any():
         ed = err[:, decided]
         rows = np.where(np.isnan(ed), np.inf, ed).max(axis=1)
         worst = float(rows.max())
         sig = _first_bad(rows, tol)
-        _chk(ctx, "values-match-definition", fname, worst, tol, sig=sig, detail=None if sig is None else dict(_worst(ed, th[decided], ph[decided]), lmax=lmax))
+        _chk(ctx, "values-match-definition" + sfx, fname, worst, tol, sig=sig, detail=None if sig is None else dict(_worst(ed, th[decided], ph[decided]), lmax=lmax))
         ctx.count("points-decided:" + fname, int(decided.sum()))
         if pole.any():
             ctx.count("points-at-poles:" + fname, int((pole & decided).sum()))
@@ -304,7 +305,7 @@ def _check_values(ctx, fname, res, lmax, theta, phi):
         resid = o8.addition_residual(dY, lmax, dth, dph, perm)
         ta = tol_addition(lmax) if low is None else tol
         bad = np.where(~(resid <= ta))[0]
-        _chk(ctx, "addition-theorem", fname, float(np.where(np.isnan(resid), np.inf, resid).max()), ta, sig=None if len(bad) == 0 else f"first-bad-l={int(bad[0])}", detail=None if len(bad) == 0 else {"lmax": lmax, "first_bad_l": int(bad[0]), "n_bad_l": int(len(bad)), "resid": float(resid[bad[0]])})
+        _chk(ctx, "addition-theorem" + sfx, fname, float(np.where(np.isnan(resid), np.inf, resid).max()), ta, sig=None if len(bad) == 0 else f"first-bad-l={int(bad[0])}", detail=None if len(bad) == 0 else {"lmax": lmax, "first_bad_l": int(bad[0]), "n_bad_l": int(len(bad)), "resid": float(resid[bad[0]])})
     refl = ~decided
     if refl.any():
         dev = float(np.nanmax(err[:, refl]))
@@ -347,7 +348,7 @@ def _post_rec(ctx):
         err = np.abs(np.asarray(res[:, idx] - other, dtype=float))
         rows = np.where(np.isnan(err), np.inf, err).max(axis=1)
         sig = _first_bad(rows, tol)
-        _chk(ctx, "implementations-agree", "recursion-vs-scipy", float(rows.max()), tol, sig=sig, detail=None if sig is None else dict(_worst(err, th[idx], ph[idx]), lmax=lmax))
+        _chk(ctx, "implementations-agree" + ("" if low is None else "-single-precision-input"), "recursion-vs-scipy", float(rows.max()), tol, sig=sig, detail=None if sig is None else dict(_worst(err, th[idx], ph[idx]), lmax=lmax))
 
     return post
 
@@ -407,6 +408,7 @@ def _post_der(ctx):
         tol = tol_deriv(lmax, th[idx], ph[idx])
         if low is not None:
             tol = max(tol, tol_low(low, lmax, (th[idx], ph[idx]), power=3))
+        sfx = "" if low is None else "-single-precision-input"
         # d/dtheta against the oracle (d/dtheta cos(m theta) = -m sin(m theta): row(l,m) -> -m * row(l,-m))
         q, ms = o8.partner_rows(lmax)
         ref = sph.ref_Y(lmax, th[idx], ph[idx])
@@ -415,7 +417,7 @@ def _post_der(ctx):
         rows = np.where(np.isnan(e), np.inf, e).max(axis=1)
         t0 = tol_values(lmax) * (1 + lmax) if low is None else tol
         sig = _first_bad(rows, t0)
-        _chk(ctx, "dtheta-vs-oracle", F_DER, float(rows.max()), t0, sig=sig, detail=None if sig is None else dict(_worst(e, th[idx], ph[idx]), lmax=lmax))
+        _chk(ctx, "dtheta-vs-oracle" + sfx, F_DER, float(rows.max()), t0, sig=sig, detail=None if sig is None else dict(_worst(e, th[idx], ph[idx]), lmax=lmax))
         # both derivatives against numerical differentiation of the implemented harmonics (longdouble)
         rho = o8.numdiff_radius(lmax)
         nn = 24
@@ -437,13 +439,13 @@ def _post_der(ctx):
             ctx.count("numdiff-points", k)
         rows = np.where(np.isnan(e_th), np.inf, e_th).max(axis=1)
         sig = _first_bad(rows, tol)
-        _chk(ctx, "dtheta-is-derivative", F_DER, float(rows.max()), tol, sig=sig, detail=None if sig is None else dict(_worst(e_th, th[idx], ph[idx]), lmax=lmax))
+        _chk(ctx, "dtheta-is-derivative" + sfx, F_DER, float(rows.max()), tol, sig=sig, detail=None if sig is None else dict(_worst(e_th, th[idx], ph[idx]), lmax=lmax))
         off = ~pole[idx]
         if off.any():
             eo = e_ph[:, off]
             rows = np.where(np.isnan(eo), np.inf, eo).max(axis=1)
             sig = _first_bad(rows, tol)
-            _chk(ctx, "dphi-is-derivative", F_DER, float(rows.max()), tol, sig=sig, detail=None if sig is None else dict(_worst(eo, th[idx][off], ph[idx][off]), lmax=lmax))
+            _chk(ctx, "dphi-is-derivative" + sfx, F_DER, float(rows.max()), tol, sig=sig, detail=None if sig is None else dict(_worst(eo, th[idx][off], ph[idx][off]), lmax=lmax))
             ctx.count("dphi-points-decided", int(off.sum()))
         if (~off).any():
             ep = e_ph[:, ~off]
@@ -506,7 +508,8 @@ def _post_sol(ctx):
         rows = np.where(np.isnan(e), np.inf, e).max(axis=1)
         tol = tol_values(lmax) if low is None else tol_low(low, lmax, (th, ph))
         sig = _first_bad(rows, tol)
-        _chk(ctx, "solid-harmonics-scaled", F_SOL, float(rows.max()), tol, sig=sig, detail=None if sig is None else dict(_worst(e, th, ph), lmax=lmax, r_at_worst=float(r[np.argmax(np.where(np.isnan(e), np.inf, e).max(axis=0))])))
+        sfx = "" if low is None else "-single-precision-input"
+        _chk(ctx, "solid-harmonics-scaled" + sfx, F_SOL, float(rows.max()), tol, sig=sig, detail=None if sig is None else dict(_worst(e, th, ph), lmax=lmax, r_at_worst=float(r[np.argmax(np.where(np.isnan(e), np.inf, e).max(axis=0))])))
         zero = r == 0
         if zero.any():
             Rz = np.asarray(R[:, zero], dtype=float)
@@ -516,7 +519,7 @@ def _post_sol(ctx):
             xyz = np.asarray(o8.sph_to_unit(th, ph) * r.astype(o8.LD)[:, None], dtype=float)
             got = np.asarray(R[1:4], dtype=float)
             want = np.stack([xyz[:, 2], xyz[:, 0], xyz[:, 1]])
-            _chk(ctx, "solid-l1-is-zxy", F_SOL, float(np.max(np.abs(got - want) / np.maximum(r, 1e-300)[None, :], initial=0.0)), 1e-13 if low is None else 16 * low * (1 + _maxabs(th) + _maxabs(ph)), sig="l=1-not-(z,x,y)")
+            _chk(ctx, "solid-l1-is-zxy" + sfx, F_SOL, float(np.max(np.abs(got - want) / np.maximum(r, 1e-300)[None, :], initial=0.0)), 1e-13 if low is None else 16 * low * (1 + _maxabs(th) + _maxabs(ph)), sig="l=1-not-(z,x,y)")
 
     return post
 
@@ -952,7 +955,7 @@ def _run_dtype_angles(ctx, gu, params):
         tol = 1e-12 * (1 + lmax)
     else:
         tol = 1e-13
-    _chk(ctx, "same-result-for-other-argument-form", f"{name}:{dt}", err, tol, sig="differs-from-float64-copy", detail={"lmax": lmax, "err": err})
+    _chk(ctx, "same-result-for-other-argument-form" + ("-single-precision-input" if dt == "float32" else ""), f"{name}:{dt}", err, tol, sig="differs-from-float64-copy", detail={"lmax": lmax, "err": err})
 
 
 def _run_dtype_c2s(ctx, gu, params):
